@@ -322,6 +322,54 @@ pub fn apply_set<P: TP>(s: &mut SetSide<P>, op: &Op, env: &mut Env) -> R<bool> {
             s.set = c;
             env.ev("clone_swap");
         }
+        Op::BulkInsert { under, n, seed, .. } => {
+            let (_, base) = rs::<P>(env, *under);
+            let mut sd = *seed;
+            env.cur_op = "set.insert";
+            for _ in 0..*n {
+                sd = splitmix(sd);
+                let extra = 1 + (sd % 18) as u8;
+                let len = (base.len as u32 + extra as u32).min(P::W as u32) as u8;
+                sd = splitmix(sd);
+                let rnd = ((sd as u128) << 64) | splitmix(sd ^ 0x9E37) as u128;
+                let m = crate::tp::len_mask(base.len);
+                let bits = ((base.bits & m) | (rnd & !m)) & crate::tp::width_mask(P::W);
+                let p: P = P::make(bits, len);
+                let r = raw_of(&p);
+                let got = s.set.insert(p);
+                let want = s.model.insert(r, 0).is_none();
+                ensure!(got == want, "C01", "C01:set.insert:return", "step {step}: PrefixSet::insert({:?}) returned {got}, newly inserted: {want}", r.key());
+            }
+            if s.model.len() >= 256 {
+                env.ev("model_ge256");
+            }
+        }
+        Op::ChainInsert { along, seed, .. } => {
+            let (_, base) = rs::<P>(env, *along);
+            let mut sd = splitmix(*seed);
+            let rnd = ((sd as u128) << 64) | splitmix(sd ^ 0x51) as u128;
+            let m = crate::tp::len_mask(base.len);
+            let addr = ((base.bits & m) | (rnd & !m)) & crate::tp::width_mask(P::W);
+            let mut lens: Vec<u8> = (0..=P::W).collect();
+            if sd % 3 == 1 {
+                lens.reverse();
+            } else if sd % 3 == 2 {
+                for i in (1..lens.len()).rev() {
+                    sd = splitmix(sd);
+                    lens.swap(i, (sd % (i as u64 + 1)) as usize);
+                }
+            }
+            env.cur_op = "set.insert";
+            for len in lens {
+                let p: P = P::make(addr, len);
+                let r = raw_of(&p);
+                let got = s.set.insert(p);
+                let want = s.model.insert(r, 0).is_none();
+                ensure!(got == want, "C01", "C01:set.insert:return", "step {step}: PrefixSet::insert({:?}) returned {got}, newly inserted: {want}", r.key());
+                env.uni.push(Raw { bits: addr, len });
+            }
+            env.ev("chain_full_depth");
+        }
         Op::ViewMut { nav, act, .. } => {
             // value insertion / removal through a mutable view of the set
             env.cur_op = "set.view_mut";
